@@ -85,6 +85,47 @@ class MirFn:
 FN_RE = re.compile(r"^fn (.+?)\((.*)\)(?: -> (.+))? \{$")
 
 
+class _Hdr:
+    def __init__(self, name, params, ret):
+        self.g = (None, name, params, ret)
+
+    def group(self, i):
+        return self.g[i]
+
+
+def parse_fn_header(ln):
+    """`fn NAME(PARAMS) -> RET {` with balanced parentheses (the return type may be a tuple)"""
+    if not (ln.startswith("fn ") and ln.endswith(" {")):
+        return None
+    body = ln[3:-2]
+    k = -1
+    for mm in re.finditer(r"\((?=\)|_\d+: )", body):
+        k = mm.start()
+        break
+    if k < 0:
+        return None
+    depth = 0
+    end = -1
+    for i in range(k, len(body)):
+        c = body[i]
+        if c == "(":
+            depth += 1
+        elif c == ")":
+            depth -= 1
+            if depth == 0:
+                end = i
+                break
+    if end < 0:
+        return None
+    rest = body[end + 1:].strip()
+    ret = None
+    if rest.startswith("->"):
+        ret = rest[2:].strip()
+    elif rest:
+        return None
+    return _Hdr(body[:k], body[k + 1:end], ret)
+
+
 def parse_mir(text, want=None):
     """Parse all functions (or only those whose name contains one of `want`) of a MIR dump."""
     fns = {}
@@ -93,7 +134,7 @@ def parse_mir(text, want=None):
     while i < n:
         ln = lines[i]
         if ln.startswith("fn ") and ln.endswith("{"):
-            m = FN_RE.match(ln)
+            m = parse_fn_header(ln)
             if not m:
                 i += 1
                 continue
@@ -344,13 +385,16 @@ class Interp:
         return r == z3.sat
 
     # ---- entry ------------------------------------------------------------------------------
-    def run(self, fn, args, assumptions=()):
-        """Execute `fn` on argument values; returns list of Outcome."""
+    def run(self, fn, args, assumptions=(), extra_locals=None):
+        """Execute `fn` on argument values; returns list of Outcome.  extra_locals: additional locals of the entry
+        frame (the referents of reference arguments: pass Ref(0, name, ()) as the argument)."""
         self.outcomes = []
         self.t0 = time.time()
         st = State()
         st.pc = list(assumptions)
         fr = Frame(fn, 0)
+        for k, v in (extra_locals or {}).items():
+            fr.locals[k] = v
         for (loc, _), a in zip(fn.params, args):
             fr.locals[loc] = a
         st.frames.append(fr)
@@ -1363,6 +1407,117 @@ def _int_pow(I, s, fr, callee, args, dty, work, at):
     return acc
 
 
+def _int_method(I, s, fr, callee, args, dty, work, at):
+    """std integer methods people reach for when they `fix' an arithmetic arm: checked_*, wrapping_*, saturating_*,
+    overflowing_*, div_euclid/rem_euclid, abs, unsigned_abs, signum, min, max (semantics as documented in core::num)"""
+    m = re.search(r"core::num::<impl (\w+)>::(\w+)$", callee) or re.search(r"^<?(\w+)>?::(\w+)$", callee)
+    if not m:
+        raise Unsupported("int method " + callee[:60])
+    ty, meth = m.group(1), m.group(2)
+    if ty not in INT_TYPES:
+        raise Unsupported("int method on " + ty)
+    w, sg = INT_TYPES[ty]
+    a = args[0]
+    b = args[1] if len(args) > 1 else None
+    if not isinstance(a, Scalar) or (b is not None and not isinstance(b, Scalar)):
+        raise Unsupported("int method on non-scalars")
+    x = a.t
+    y = b.t if b is not None else None
+    MIN = bv(w, -(1 << (w - 1))) if sg else bv(w, 0)
+    MAX = bv(w, (1 << (w - 1)) - 1) if sg else bv(w, (1 << w) - 1)
+
+    def panic(cond, msg):
+        if I.feasible(s.pc, cond):
+            I.outcomes.append(Outcome("panic", s.pc + [cond], msg=msg, where=fr.fn.short + " " + fr.bb))
+        s.pc.append(z3.Not(cond))
+        if not I.feasible(s.pc):
+            raise PathEnd()
+
+    def arith(op):
+        r = I.binop({"add": "AddWithOverflow", "sub": "SubWithOverflow", "mul": "MulWithOverflow"}[op], a, b)
+        return r.fields[0].t, r.fields[1].t
+
+    def trunc_div():
+        return (x / y) if sg else z3.UDiv(x, y)
+
+    def trunc_rem():
+        return z3.SRem(x, y) if sg else z3.URem(x, y)
+    div_ovf = z3.And(x == MIN, y == bv(w, -1)) if (sg and y is not None) else z3.BoolVal(False)
+    I.models_used.add("core::num::<impl %s>::%s" % (ty, meth))
+    opt_ty = dty
+    if meth in ("checked_add", "checked_sub", "checked_mul"):
+        r, o = arith(meth[8:])
+        return Enum(opt_ty, z3.If(o, bv(64, 0), bv(64, 1)), {"Some": {0: Scalar(r, ty)}})
+    if meth in ("checked_div", "checked_rem", "checked_div_euclid", "checked_rem_euclid"):
+        bad = z3.Or(y == 0, div_ovf)
+        if meth == "checked_div":
+            v = trunc_div()
+        elif meth == "checked_rem":
+            v = trunc_rem()
+        else:
+            q, r_ = trunc_div(), trunc_rem()
+            if sg:
+                adj = r_ < 0
+                qe = z3.If(adj, z3.If(y > 0, q - 1, q + 1), q)
+                re_ = z3.If(adj, z3.If(y < 0, r_ - y, r_ + y), r_)
+            else:
+                qe, re_ = q, r_
+            v = qe if "div" in meth else re_
+        return Enum(opt_ty, z3.If(bad, bv(64, 0), bv(64, 1)), {"Some": {0: Scalar(v, ty)}})
+    if meth == "checked_neg":
+        bad = (x == MIN) if sg else (x != 0)
+        return Enum(opt_ty, z3.If(bad, bv(64, 0), bv(64, 1)), {"Some": {0: Scalar(-x, ty)}})
+    if meth in ("wrapping_add", "wrapping_sub", "wrapping_mul"):
+        return Scalar({"add": x + y, "sub": x - y, "mul": x * y}[meth[9:]], ty)
+    if meth == "wrapping_neg":
+        return Scalar(-x, ty)
+    if meth in ("saturating_add", "saturating_sub", "saturating_mul"):
+        r, o = arith(meth[11:])
+        if sg:
+            if meth.endswith("mul"):
+                neg = (x < 0) != (y < 0)
+            elif meth.endswith("add"):
+                neg = y < 0
+            else:
+                neg = y > 0
+            sat = z3.If(neg, MIN, MAX)
+        else:
+            sat = MAX if not meth.endswith("sub") else MIN
+        return Scalar(z3.If(o, sat, r), ty)
+    if meth in ("overflowing_add", "overflowing_sub", "overflowing_mul"):
+        r, o = arith(meth[12:])
+        return Agg("(%s, bool)" % ty, [Scalar(r, ty), Scalar(o, "bool")])
+    if meth in ("div_euclid", "rem_euclid"):
+        panic(y == 0, "attempt to divide by zero" if "div" in meth else "attempt to calculate the remainder with a divisor of zero")
+        if sg:
+            panic(div_ovf, "attempt to divide with overflow" if "div" in meth else "attempt to calculate the remainder with overflow")
+        q, r_ = trunc_div(), trunc_rem()
+        if sg:
+            adj = r_ < 0
+            qe = z3.If(adj, z3.If(y > 0, q - 1, q + 1), q)
+            re_ = z3.If(adj, z3.If(y < 0, r_ - y, r_ + y), r_)
+        else:
+            qe, re_ = q, r_
+        return Scalar(qe if "div" in meth else re_, ty)
+    if meth == "abs" and sg:
+        if I.overflow_checks:
+            panic(x == MIN, "attempt to negate with overflow")
+        return Scalar(z3.If(x < 0, -x, x), ty)
+    if meth == "wrapping_abs" and sg:
+        return Scalar(z3.If(x < 0, -x, x), ty)
+    if meth == "unsigned_abs" and sg:
+        uty = {"i32": "u32", "i64": "u64", "i8": "u8", "i16": "u16", "isize": "usize"}[ty]
+        return Scalar(z3.If(x < 0, -x, x), uty)
+    if meth == "signum" and sg:
+        return Scalar(z3.If(x > 0, bv(w, 1), z3.If(x == 0, bv(w, 0), bv(w, -1))), ty)
+    if meth in ("min", "max"):
+        lt = (x < y) if sg else z3.ULT(x, y)
+        return Scalar(z3.If(lt, x, y) if meth == "min" else z3.If(lt, y, x), ty)
+    if meth in ("is_negative", "is_positive") and sg:
+        return Scalar((x < 0) if meth == "is_negative" else (x > 0), "bool")
+    raise Unsupported("int method %s::%s" % (ty, meth))
+
+
 def _ord_method(name):
     """PartialOrd::{lt,le,gt,ge} / PartialEq::ne default (provided) methods on crate types: run the type's own
     partial_cmp / eq from the MIR dump, then apply core's definition of the provided method."""
@@ -1410,6 +1565,8 @@ STD_MODELS = {
     r"f64>::abs$": _f64_unary("abs"),
     r"f64>::powf$": _powf, r"f64>::powi$": _powi,
     r"^core::num::<impl (i32|u64|u32|i64|usize)>::pow$": _int_pow,
+    r"^core::num::<impl (i8|i16|i32|i64|isize|u8|u16|u32|u64|usize)>::(checked_\w+|wrapping_\w+|saturating_\w+|overflowing_\w+|div_euclid|rem_euclid|abs|unsigned_abs|signum|is_negative|is_positive)$": _int_method,
+    r"^<(i8|i16|i32|i64|isize|u8|u16|u32|u64|usize) as Ord>::(min|max)$": _int_method,
 }
 
 
